@@ -100,6 +100,11 @@ func (r *rw) rewriteSelect(s *ast.SelectStmt) ast.Stmt {
 	hd := "false"
 	if hasDefault {
 		hd = "true"
+	} else {
+		// Select(false, …) never returns -1; the default clause only keeps the switch a
+		// terminating statement when the select was one (all arms return).
+		sw.Body.List = append(sw.Body.List, &ast.CaseClause{Body: []ast.Stmt{&ast.ExprStmt{X: &ast.CallExpr{
+			Fun: ast.NewIdent("panic"), Args: []ast.Expr{&ast.BasicLit{Kind: token.STRING, Value: strconv.Quote("vsched: select returned no arm")}}}}}})
 	}
 	sw.Tag = call("vsched", "Select", append([]ast.Expr{ast.NewIdent(hd)}, cases...)...)
 	r.needShed = true
